@@ -364,7 +364,8 @@ def diff_component(ctx, component, gen_args, classify, label=None, shrink=True, 
     for key, (c, i, iout, mout) in list(bad.items())[:max_report]:
         ops = [op for (op, _) in c[: i + 1]]
         if shrink:
-            ops = shrink_case(component, ops, lambda c2, i2, io, mo: classify(c2, i2, io, mo) == key or
+            # a line where implementation and model agree and no oracle fired is not a finding of any class
+            ops = shrink_case(component, ops, lambda c2, i2, io, mo: ((io != mo) and classify(c2, i2, io, mo) == key) or
                               (line_oracle is not None and line_oracle(c2, i2, io.split(" ORACLE[", 1)[0]) == key), every_line=line_oracle is not None)
         impl_lines, model_lines = replay_case(component, ops)
         if "ORACLE[" in iout:
